@@ -603,7 +603,10 @@ impl Xot {
         if !self.is_element(node) {
             return Err(Error::NotElement(node));
         };
-        let mut fullname_serializer = FullnameSerializer::new(self, vec![]);
+        // the xml prefix is always bound, it never needs (and cannot get) a
+        // declaration
+        let mut fullname_serializer =
+            FullnameSerializer::new(self, self.base_prefixes().into_iter().collect());
         let mut missing_namespace_ids = HashSet::default();
         // elements in no namespace that sit in the scope of a default
         // namespace; the serializer undeclares the default namespace for
